@@ -19,7 +19,9 @@ from .. import core, fsmon, parcommon as PC, pysched
 
 LEVEL = "model_checking"
 
-OPS = ("call1", "call1b", "call2", "reduce_items", "reduce_bytes", "clear", "call1_changed", "call1_z", "shelve1")
+OPS = ("call1", "call1b", "call2", "reduce_items", "reduce_bytes", "clear", "call1_changed", "call1_z", "shelve1", "codecheck")
+# codecheck = only the first step of a cached call (MemorizedFunc._check_previous_func_code: read / compare / wipe / store
+# the function's source): the narrow seam that lets three concurrent first users be explored at PB 3
 INITS = ("empty", "f1", "f1+f2")
 
 
@@ -130,6 +132,9 @@ def run_once(cfg, choices=(), expect=None, record_states=True):
                     results[name] = ("ok", True, None)
                 elif op == "clear":
                     mem.clear(warn=False)
+                    results[name] = ("ok", True, None)
+                elif op == "codecheck":
+                    cf._check_previous_func_code(stacklevel=4)
                     results[name] = ("ok", True, None)
             except pysched.Abort:
                 raise
@@ -280,7 +285,7 @@ def plan(ctx):
     quick = ctx.tier == "quick"
     items = []
     pairs = []
-    ops = [o for o in OPS if o not in ("call1_changed", "call1_z", "shelve1")]
+    ops = [o for o in OPS if o not in ("call1_changed", "call1_z", "shelve1", "codecheck")]
     for a, b in itertools.combinations_with_replacement(ops, 2):
         if a.startswith("reduce") and b.startswith("reduce") or (a, b) == ("clear", "clear"):
             continue
@@ -295,6 +300,11 @@ def plan(ctx):
                 for model in ("threads", "processes"):
                     c = dict(actors=list(actors), init=init, order=order, model=model)
                     items.append((c, (2, 0, 0) if quick else (3, 0, 0), 300000))
+    # three users meeting on a function nobody has cached yet (the first step of their calls), private Memory objects
+    for order in ("asc",) if quick else ("asc", "desc"):
+        c = dict(actors=["codecheck", "codecheck", "codecheck"], init="empty", order=order, model="processes")
+        items.append((c, (3, 0, 0), 2000000))
+    items.append((dict(actors=["codecheck", "codecheck", "call1"], init="empty", order="asc", model="processes"), (2, 0, 0) if quick else (3, 0, 0), 2000000))
     if not quick:
         for actors in triples:
             for init in ("f1", "f1+f2"):
@@ -305,7 +315,7 @@ def plan(ctx):
         sel = PC.rotate_slice(items, ctx.seed, 3)
         sel_keys = {PC.cfg_key(i[0]) for i in sel}
         # every other configuration at one pre-emption
-        items = sel + [(c, (1, 0, 0), m) for (c, b, m) in items if PC.cfg_key(c) not in sel_keys]
+        items = sel + [(c, (1, 0, 0) if "codecheck" not in c["actors"] else b, m) for (c, b, m) in items if PC.cfg_key(c) not in sel_keys]
     return PC.shard_items(items, lambda it: it[1][0] * len(it[0]["actors"]), 6, nshards=6)
 
 
@@ -315,7 +325,7 @@ def run(ctx):
     ctx.rule = ("actor multisets over %s (pairs; thorough also triples) x initial directory %s x directory order {asc, desc} x "
                 "{threads sharing the cached function, 'processes' with private function / Memory objects}; every interleaving at "
                 "file-system-call granularity with <= PB pre-emptions (bounds in samples); quick = a VERIF_SEED-rotated third at PB 2, "
-                "all the others at PB 1; thorough = PB 3 (pairs) / PB 2 (triples). distinct_nontrivial = distinct outcome vectors" % (list(OPS), list(INITS)))
+                "all the others at PB 1; thorough = PB 3 (pairs) / PB 2 (triples); three first users of one function (codecheck x 3: only the source-check step of a call) at PB 3 in both tiers. distinct_nontrivial = distinct outcome vectors" % (list(OPS), list(INITS)))
     ctx.exhaustive = True
     ctx.assumptions += ["scheduling points = C-level file-system entry points seen through sys.monitoring CALL events; code between two of them runs atomically",
                         "the 'processes' model runs actors as threads with private function, Memory and function-table entries; genuinely per-process state (pid in temporary names) is shared",
